@@ -5,9 +5,9 @@ what our checks reported)."""
 import json, os, re, shutil, sys
 ROOT = "/verif"
 META = json.load(open(os.path.join(ROOT, "tools", "seeded_meta.json")))
-def detection(pid):
-    log = os.path.join(ROOT, "work", "mut", pid + ".log")
-    first = os.path.join(ROOT, "work", "mut", "round1", pid + ".log")
+def detection(pid, logname=None):
+    log = os.path.join(ROOT, "work", "mut", (logname or pid) + ".log")
+    first = os.path.join(ROOT, "work", "mut", "round1", (logname or pid) + ".log")
     out = []
     for tag, p in (("first run", first), ("final run", log)):
         if not os.path.exists(p):
@@ -31,6 +31,6 @@ for sid, m in META.items():
             if os.path.exists(os.path.join(src, f)):
                 shutil.copy(os.path.join(src, f), os.path.join(dst, f))
     m2 = dict(m)
-    m2["detected_by"] = m.get("detected_by_override") or detection(pid)
+    m2["detected_by"] = m.get("detected_by_override") or detection(pid, m.get("log"))
     json.dump(m2, open(os.path.join(dst, "meta.json"), "w"), indent=1, sort_keys=True)
     print(sid, "->", m2["detected_by"][:150])
